@@ -173,6 +173,16 @@ impl Checker<'_> {
                 self.violate("C06", "different-terms-compare-equal", m);
             }
         }
+        if e1 && e2 && !expected {
+            // == is too generous here (that is C06's finding); the Hash/Eq contract of C07 is
+            // stated on what compares equal, so these two must hash equally as well
+            let (ha, hb) = (hash3(&a.term, self.key), hash3(&b.term, self.key));
+            self.stats.hash_evals += 6;
+            if ha != hb {
+                let m = format!("the terms compare equal (==) but hash differently {}", ctx(self.pool));
+                self.violate("C07", "terms-comparing-equal-hash-differently", m);
+            }
+        }
         if expected {
             // C07: premise decided by the oracle, not by Term::eq (which may itself be broken)
             let ha = hash3(&a.term, self.key);
@@ -255,15 +265,16 @@ pub fn run_terms(ch: &mut Choices, verbose: bool) -> TermsReport {
     let tape_seed = ch.bits() as u64;
     // "wide" runs: shallow descriptions with large unordered containers (9-16 elements)
     let wide = ch.chance(1, 6);
-    // "deep" runs: narrow descriptions nested 5-11 levels
+    // "deep" runs: narrow descriptions nested 5-22 levels
     let deep = !wide && ch.chance(1, 8);
     let gp = if deep {
         GenParams {
-            max_depth: ch.range(5, 11),
+            max_depth: ch.range(5, 22),
             max_fan: 2,
             n_names: ch.range(2, 4),
-            unordered_bias: 3,
+            unordered_bias: ch.choose(4),
             exotic: false,
+            stop_den: 8,
         }
     } else if wide {
         GenParams {
@@ -272,6 +283,7 @@ pub fn run_terms(ch: &mut Choices, verbose: bool) -> TermsReport {
             n_names: ch.range(8, 14),
             unordered_bias: ch.choose(4),
             exotic: false,
+            stop_den: 3,
         }
     } else {
         GenParams {
@@ -280,6 +292,7 @@ pub fn run_terms(ch: &mut Choices, verbose: bool) -> TermsReport {
             n_names: ch.range(2, 6),
             unordered_bias: ch.choose(4),
             exotic: ch.chance(1, 5),
+            stop_den: 3,
         }
     };
     // caller threads: in "hop" runs some values are built, hashed or compared on another thread
